@@ -767,6 +767,9 @@ impl Thread {
         // Enter the top level scope
         {
             let mut context = vm.owned_context();
+            // A thread runs under the same stack limit as the thread which spawned it
+            let max_stack_size = self.owned_context().stack.max_stack_size();
+            context.stack.set_max_stack_size(max_stack_size);
             StackFrame::<State>::new_frame(&mut context.stack, 0, State::Unknown).unwrap();
         }
         let ptr = {
